@@ -313,7 +313,13 @@ def check_ptseg(ctx, fn_proj, fn_dist, p, a, b, case, where="direct", res=None):
         # the same call with the points given as lists / numpy arrays / numpy scalars
         import numpy as np
         ctx.count("container_variants_judged")
-        for mk in (list, np.array, lambda x: tuple(np.float64(v) for v in x)):
+        cnt = [0]
+
+        def with_time(x):
+            # (y, x, time) triples as the matcher passes them on: the third component is no coordinate
+            cnt[0] += 1
+            return (x[0], x[1], 1000.0 + 37.0 * cnt[0])
+        for mk in (list, np.array, lambda x: tuple(np.float64(v) for v in x), with_time):
             try:
                 d3, q3, t3 = fn_dist(mk(p), mk(a), mk(b))
                 if not (abs(float(d3) - dd) <= tol and math.dist([float(v) for v in q3[:2]], q2[:2]) <= tol and abs(float(t3) - t2) * max(math.dist(a, b), 1e-300) <= tol):
